@@ -1,4 +1,5 @@
 import Modbus.Lemmas.AduRoundTrip
+import Modbus.Lemmas.Scan
 /-
 C04 — RTU ADU round-trip in both directions.
 
@@ -526,4 +527,172 @@ example : Rtu.clientDecodeResponse [0x2A, 0x83, 0x02, 0xB0, 0xF9] =
     .ok (some (0x2A, .error ⟨.readHoldingRegisters, .illegalDataAddress⟩)) := by decide +kernel
 example : Rtu.clientDecodeResponse (Spec.rtuFrame 0x2A [0xAC, 0x08]) = .ok none := by decide +kernel
 
+/-! ### the serial-line-only requests: framed by the table, not encodable (open finding D19) -/
+
+/-
+Full statement of C04 for these kinds — FALSE for the model of the unedited crate (open finding D19):
+
+  theorem rtu_req_serial_only_roundtrip (slave : UInt8) (r : Request)
+      (hr : r = .readExceptionStatus ∨ r = .getCommEventCounter ∨ r = .getCommEventLog ∨ r = .reportServerId)
+      (buf : Bytes) (hb : 4 ≤ buf.length) :
+      ∃ out, Rtu.clientEncodeRequest slave r buf = .ok (4, out) ∧
+        out.take 4 = Spec.rtuFrame slave [r.fc.value] ∧
+        ∃ r', Rtu.serverDecodeRequest (out.take 4) = .ok (some (slave, r')) ∧ r'.fc.value = r.fc.value
+
+("every request that serial-line framing supports": the length table and the crate's own
+`rtu::request_pdu_len` frame 0x07 / 0x0B / 0x0C / 0x11 as one-byte PDUs.)  It fails at the first conjunct:
+`Request::pdu_len` is `todo!()` for these kinds, so `rtu::client::encode_request` PANICS on every buffer
+that passes its own two-byte room check.
+-/
+/-- **open finding D19 at ADU level.**  `rtu::client::encode_request` on ANY slave id and each of the four
+    serial-line-only requests the framing layer supports: `Err(BufferSize)` for a buffer of fewer than two
+    bytes (the encoder's header-room check comes first), a PANIC for EVERY longer buffer — although the
+    specification's length table frames each of them as a one-byte PDU, and the frames
+    `slave, code, crc` are what the crate's own server-side decoder accepts (as `Custom` requests). -/
+theorem rtu_unimplemented_request_panics_witness (slave : UInt8) (r : Request)
+    (hr : r = .readExceptionStatus ∨ r = .getCommEventCounter ∨ r = .getCommEventLog ∨ r = .reportServerId)
+    (buf : Bytes) :
+    Rtu.clientEncodeRequest slave r buf = (if buf.length < 2 then .err .bufferSize else .panic) ∧
+    (buf.length < 2 → Rtu.clientEncodeRequest slave r buf = .err .bufferSize) ∧
+    (2 ≤ buf.length → Rtu.clientEncodeRequest slave r buf = .panic) ∧
+    Spec.lenRule .req r.fc.value.toNat = .fixed 1 ∧
+    Spec.PduComplete .req [r.fc.value] ∧
+    Rtu.serverDecodeRequest (Spec.rtuFrame slave [r.fc.value]) =
+      .ok (some (slave, .custom (.custom r.fc.value) [])) := by
+  have key : Rtu.clientEncodeRequest slave r buf = (if buf.length < 2 then .err .bufferSize else .panic) := by
+    unfold Rtu.clientEncodeRequest Rtu.encodeAdu
+    by_cases h : buf.length < 2
+    · rw [if_pos h, if_pos h]
+    · rw [if_neg h, if_neg h]
+      rcases hr with rfl | rfl | rfl | rfl <;> rfl
+  refine ⟨key, fun h => by rw [key, if_pos h], fun h => by rw [key, if_neg (by omega)], ?_, ?_, ?_⟩
+  · rcases hr with rfl | rfl | rfl | rfl <;> decide
+  · rcases hr with rfl | rfl | rfl | rfl <;> exact complete_fixed (n := 1) rfl (by decide) rfl
+  · have h := fun (c : UInt8) (hc : Spec.PduComplete .req [c]) (hm : c ∉ modelledReqCodes) =>
+      (rtu_req_roundtrip_custom slave (.custom c) [] hc hm []).1
+    simp only [List.append_nil] at h
+    rcases hr with rfl | rfl | rfl | rfl
+    · exact h 0x07 (complete_fixed (n := 1) rfl (by decide) rfl) (by decide)
+    · exact h 0x0B (complete_fixed (n := 1) rfl (by decide) rfl) (by decide)
+    · exact h 0x0C (complete_fixed (n := 1) rfl (by decide) rfl) (by decide)
+    · exact h 0x11 (complete_fixed (n := 1) rfl (by decide) rfl) (by decide)
+
+example : Rtu.clientEncodeRequest 0x11 .readExceptionStatus [] = .err .bufferSize ∧
+    Rtu.clientEncodeRequest 0x11 .readExceptionStatus [0] = .err .bufferSize ∧
+    Rtu.clientEncodeRequest 0x11 .readExceptionStatus [0, 0] = .panic ∧
+    Rtu.clientEncodeRequest 0x11 .readExceptionStatus (List.replicate 256 0) = .panic ∧
+    Rtu.clientEncodeRequest 0x11 .reportServerId (List.replicate 4 0) = .panic ∧
+    Spec.lenRule .req 0x07 = .fixed 1 ∧ Spec.lenRule .req 0x0B = .fixed 1 ∧
+    Spec.lenRule .req 0x0C = .fixed 1 ∧ Spec.lenRule .req 0x11 = .fixed 1 ∧
+    Rtu.serverDecodeRequest [0x11, 0x07, 0x4C, 0x22] = .ok (some (0x11, .custom (.custom 0x07) [])) := by
+  decide +kernel
+/-! ### exception frames outside the table, with following bytes -/
+
+/-- the attempt at the front of a serial-line frame whose PDU starts with a function code the response table
+    does not list — followed by ANY bytes — is rejected with an error (the predictor looks at byte 1 only) -/
+theorem rtu_attemptRsp_unknown (slave : UInt8) (pdu : Bytes) (c : UInt8)
+    (h0 : pdu[0]? = some c) (hu : Spec.lenRule .rsp c.toNat = .unknown) (rest : Bytes) :
+    ∃ e, Rtu.attemptRsp (Spec.rtuFrame slave pdu ++ rest) = .err e := by
+  have hpos : 1 ≤ pdu.length := by
+    cases pdu with
+    | nil => simp at h0
+    | cons _ _ => simp
+  unfold Rtu.attemptRsp mkAttempt
+  rw [rtu_responsePduLen_eq]
+  have e := rtuFrame_split slave pdu rest
+  have : Spec.predict 1 .rsp (Spec.rtuFrame slave pdu ++ rest) = .reject := by
+    rw [e, predict_shift 1 .rsp _ _ rfl]
+    refine predict_reject (c := c) ?_ hu
+    rw [List.getElem?_append_left (by omega)]; exact h0
+  rw [this]
+  exact ⟨_, rfl⟩
+
+/-- **Exception frames outside the table, followed by ANY bytes.**  `F` = the encoded serial-line ADU of an
+    exception response for a function value the length table does not list (0, or 0x2C … 0x7F), `rest`
+    arbitrary:
+
+    * the scanner's attempt at offset 0 is an error (the length predictor rejects byte 1);
+    * so `rtu::decode` never reports a frame with `start = 0`: whatever it reports starts at an offset
+      1 … 255 and is what the attempt produced THERE;
+    * so whatever `rtu::client::decode_response` returns for `F ++ rest` is the PDU of a frame found at a
+      later offset, never the PDU `[f + 0x80, x]` located at offset 0;
+    * with nothing following, the answer is 'incomplete' (`rtu_exception_unframeable`).
+
+    NOT covered — and not provable, see `rtu_exception_unframeable_overlap_witness`: that the frame found at
+    a later offset does not OVERLAP the bytes of `F` (offsets 1 … 4 are tried with the remaining bytes of
+    `F` as slave id / function code / data; four chosen bytes complete them to a frame with a valid CRC). -/
+theorem rtu_exception_unframeable_followed (slave : UInt8) (f x : UInt8)
+    (h : f = 0 ∨ (0x2B < f ∧ f < 0x80)) (rest : Bytes) :
+    (∃ e, Rtu.attemptRsp (Spec.rtuFrame slave [f + 0x80, x] ++ rest) = .err e) ∧
+    (∀ fr loc, Rtu.decodeRsp (Spec.rtuFrame slave [f + 0x80, x] ++ rest) = .ok (some (fr, loc)) →
+      1 ≤ loc.start ∧ loc.start < 256 ∧
+      Rtu.attemptRsp ((Spec.rtuFrame slave [f + 0x80, x] ++ rest).drop loc.start) = .ok (some (fr, loc.size))) ∧
+    (∀ s p, Rtu.clientDecodeResponse (Spec.rtuFrame slave [f + 0x80, x] ++ rest) = .ok (some (s, p)) →
+      ∃ fr loc, Rtu.decodeRsp (Spec.rtuFrame slave [f + 0x80, x] ++ rest) = .ok (some (fr, loc)) ∧
+        1 ≤ loc.start ∧ s = fr.slave ∧ decodeRspPdu fr.pdu = .ok p) ∧
+    (rest = [] → Rtu.clientDecodeResponse (Spec.rtuFrame slave [f + 0x80, x] ++ rest) = .ok none) := by
+  have hatt := rtu_attemptRsp_unknown slave [f + 0x80, x] (f + 0x80) rfl (exc_rule_unknown f h) rest
+  have hscan : ∀ fr loc, Rtu.decodeRsp (Spec.rtuFrame slave [f + 0x80, x] ++ rest) = .ok (some (fr, loc)) →
+      1 ≤ loc.start ∧ loc.start < 256 ∧
+      Rtu.attemptRsp ((Spec.rtuFrame slave [f + 0x80, x] ++ rest).drop loc.start) = .ok (some (fr, loc.size)) := by
+    intro fr loc hs
+    obtain ⟨h1, _, h3, _⟩ := scan_no_later Rtu.attemptRsp _ fr loc hs
+    refine ⟨?_, h1, h3⟩
+    rcases Nat.eq_zero_or_pos loc.start with h0 | hp
+    · rw [h0, List.drop_zero] at h3
+      obtain ⟨e, he⟩ := hatt
+      rw [he] at h3; cases h3
+    · exact hp
+  refine ⟨hatt, hscan, ?_, ?_⟩
+  · intro s p hd
+    unfold Rtu.clientDecodeResponse at hd
+    have hne : (Spec.rtuFrame slave [f + 0x80, x] ++ rest).isEmpty = false :=
+      append_ne_nil_of_pos (by rw [rtuFrame_length]; omega) rest
+    rw [hne] at hd
+    simp only [Bool.false_eq_true, if_false] at hd
+    cases hs : Rtu.decodeRsp (Spec.rtuFrame slave [f + 0x80, x] ++ rest) with
+    | err e => rw [hs] at hd; cases hd
+    | panic => rw [hs] at hd; cases hd
+    | ok o =>
+      cases o with
+      | none => rw [hs] at hd; simp at hd
+      | some q =>
+        obtain ⟨fr, loc⟩ := q
+        rw [hs] at hd
+        simp only [Res.bind'_ok] at hd
+        refine ⟨fr, loc, rfl, (hscan fr loc hs).1, ?_⟩
+        unfold decodeRspPdu
+        cases hx : ExceptionResponse.decode fr.pdu with
+        | ok e =>
+          rw [hx] at hd
+          simp only [Res.ok.injEq, Option.some.injEq, Prod.mk.injEq] at hd
+          obtain ⟨rfl, rfl⟩ := hd
+          exact ⟨rfl, rfl⟩
+        | panic => rw [hx] at hd; cases hd
+        | err e =>
+          rw [hx] at hd
+          simp only at hd
+          cases hr : Response.decode fr.pdu with
+          | ok r =>
+            rw [hr] at hd
+            simp only [Res.map_ok, Res.ok.injEq, Option.some.injEq, Prod.mk.injEq] at hd
+            obtain ⟨rfl, rfl⟩ := hd
+            exact ⟨rfl, rfl⟩
+          | err e' => rw [hr] at hd; cases hd
+          | panic => rw [hr] at hd; cases hd
+  · rintro rfl
+    rw [List.append_nil]
+    exact rtu_exception_unframeable slave f x h
+
+/-- what `rtu_exception_unframeable_followed` cannot say: `F = 11 AC 06 DC C7` (slave 0x11, exception PDU
+    `AC 06`, CRC) followed by `00 01 DB DA`.  Offset 0 is rejected; at offset 1 the bytes
+    `AC 06 DC C7 00 01 DB DA` ARE a well-formed frame (slave 0xAC, write-single-register echo, valid CRC), and
+    `decode_response` returns it as a SUCCESSFUL response — four of its bytes are bytes of `F`. -/
+theorem rtu_exception_unframeable_overlap_witness :
+    Spec.rtuFrame 0x11 [0xAC, 0x06] = [0x11, 0xAC, 0x06, 0xDC, 0xC7] ∧
+    Rtu.clientDecodeResponse (Spec.rtuFrame 0x11 [0xAC, 0x06] ++ [0x00, 0x01, 0xDB, 0xDA]) =
+      .ok (some (0xAC, .ok (.writeSingleRegister 0xDCC7 1))) ∧
+    Rtu.decodeRsp (Spec.rtuFrame 0x11 [0xAC, 0x06] ++ [0x00, 0x01, 0xDB, 0xDA]) =
+      .ok (some (⟨0xAC, [0x06, 0xDC, 0xC7, 0x00, 0x01]⟩, ⟨1, 8⟩)) := by
+  decide +kernel
 end Modbus.C04
